@@ -1,5 +1,5 @@
 (* Correspondence for C09 (uamiv stream): reference codec <-> library, both directions. *)
-From PNC Require Export Base.Util Base.Words Model.Uamiv Model.Lbdy Model.One3d.
+From PNC Require Export Base.Util Base.Words Model.Uamiv Model.Lbdy Model.One3d Model.TempHp.
 Local Open Scope Z_scope.
 
 Record ucase := Case {
@@ -212,7 +212,94 @@ Definition ocheckS (c : ocase) : bool :=
 Definition oregion (c : ocase) : nat :=
   if owhole c && (Z.of_nat (length (o_steps (oc_c c))) <? 2) then 11%nat else 0%nat.
 
+(* Fifth and sixth kind of case: temperature and height_pressure files, Model/TempHp.v.
+   The readers do not expose the stamp words: views are compared without them, the stamps are pinned through TFLAG
+   (the HHMM integer of a presented time word is looked up in a table built from the content). *)
+Definition hhmm_of (tbl : list (Z * Z)) (w : Z) : Z :=
+  match find (fun p => fst p =? w) tbl with Some p => snd p | None => -1 end.
+Definition flags_of (tbl : list (Z * Z)) (stamps : list (Z * Z)) : list (Z * Z) :=
+  o_tflag (map snd stamps) (map (fun st => hhmm_of tbl (fst st)) stamps).
+
+Record tcase := TCase {
+  tc_c : temperature; tc_hhmm : list Z; tc_tbl : list (Z * Z); tc_ref : list word; tc_cut : Z;
+  tc_open_ok : bool; tc_view : tview; tc_tflag : list (Z * Z);
+  tc_py_ok : bool; tc_w_ok : bool; tc_written : list word
+}.
+Definition tview_eqb (a b : tview) : bool :=
+  (tv_nx a =? tv_nx b) && (tv_ny a =? tv_ny b) && (tv_nz a =? tv_nz b) && (tv_ntimes a =? tv_ntimes b)
+  && zll_eqb (tv_surf a) (tv_surf b) && zlll_eqb (tv_air a) (tv_air b).
+Definition tstep_eqb (a b : tstep) : bool :=
+  (ts_time a =? ts_time b) && (ts_date a =? ts_date b) && zlist_eqb (ts_surf a) (ts_surf b) && zll_eqb (ts_air a) (ts_air b).
+Definition temperature_eqb (a b : temperature) : bool :=
+  (t_nx a =? t_nx b) && (t_ny a =? t_ny b) && (t_nz a =? t_nz b) && list_eqb tstep_eqb (t_steps a) (t_steps b).
+Definition twhole (c : tcase) : bool := tc_cut c =? 4 * Z.of_nat (length (tc_ref c)).
+Definition tcheckF (c : tcase) : bool :=
+  zlist_eqb (t_enc (tc_c c)) (tc_ref c)
+  && match t_mm_read (t_ny (tc_c c)) (t_nx (tc_c c)) (firstn (Z.to_nat (tc_cut c / 4)) (tc_ref c)) (tc_cut c) with
+     | Ok v => tc_open_ok c && tview_eqb v (tc_view c)
+               && list_eqb pair_eqb (flags_of (tc_tbl c) (tv_stamps v)) (tc_tflag c)
+               && (negb (twhole c) || (tc_w_ok c && zlist_eqb (tc_written c) (t_enc (tc_c c))))
+     | Err => negb (tc_open_ok c)
+     end.
+Definition t_spec_flags (c : tcase) : list (Z * Z) := o_spec_tflag (map ts_date (t_steps (tc_c c))) (tc_hhmm c).
+Definition tcheckS (c : tcase) : bool :=
+  if twhole c then
+    tc_py_ok c && tc_open_ok c && tview_eqb (tc_view c) (t_view_of (tc_c c))
+    && list_eqb pair_eqb (tc_tflag c) (t_spec_flags c) && tc_w_ok c
+    && match t_dec (t_nx (tc_c c)) (t_ny (tc_c c)) (t_nz (tc_c c)) (tc_written c) with
+       | Some c' => temperature_eqb c' (tc_c c) | None => false end
+  else
+    negb (tc_open_ok c)
+    || (let k := Z.to_nat (tv_ntimes (tc_view c)) in
+        tc_py_ok c && (0 <? tv_ntimes (tc_view c)) && (Z.of_nat k <=? Z.of_nat (length (t_steps (tc_c c))))
+        && tview_eqb (tc_view c) (t_view_of (t_truncate_steps k (tc_c c)))
+        && list_eqb pair_eqb (tc_tflag c) (firstn k (t_spec_flags c))).
+(* region 11: single-step file; region 14: the prefix holding exactly the first TWO records *)
+Definition tregion (c : tcase) : nat :=
+  if twhole c then (if Z.of_nat (length (t_steps (tc_c c))) <? 2 then 11%nat else 0%nat)
+  else if tc_cut c =? 8 * t_rec_words (tc_c c) then 14%nat else 0%nat.
+
+Record hcase := HCase {
+  hc_c : heightpres; hc_hhmm : list Z; hc_tbl : list (Z * Z); hc_ref : list word; hc_cut : Z;
+  hc_open_ok : bool; hc_view : hview; hc_tflag : list (Z * Z);
+  hc_py_ok : bool; hc_w_ok : bool; hc_written : list word
+}.
+Definition hview_eqb (a b : hview) : bool :=
+  (hv_nx a =? hv_nx b) && (hv_ny a =? hv_ny b) && (hv_nz a =? hv_nz b) && (hv_ntimes a =? hv_ntimes b)
+  && zlll_eqb (hv_hght a) (hv_hght b) && zlll_eqb (hv_pres a) (hv_pres b).
+Definition hstep_eqb (a b : hstep) : bool :=
+  (hs_time a =? hs_time b) && (hs_date a =? hs_date b)
+  && list_eqb (fun x y => zlist_eqb (fst x) (fst y) && zlist_eqb (snd x) (snd y)) (hs_hp a) (hs_hp b).
+Definition heightpres_eqb (a b : heightpres) : bool :=
+  (h_nx a =? h_nx b) && (h_ny a =? h_ny b) && (h_nz a =? h_nz b) && list_eqb hstep_eqb (h_steps a) (h_steps b).
+Definition hwhole (c : hcase) : bool := hc_cut c =? 4 * Z.of_nat (length (hc_ref c)).
+Definition hcheckF (c : hcase) : bool :=
+  zlist_eqb (h_enc (hc_c c)) (hc_ref c)
+  && match h_mm_read (h_ny (hc_c c)) (h_nx (hc_c c)) (firstn (Z.to_nat (hc_cut c / 4)) (hc_ref c)) (hc_cut c) with
+     | Ok v => hc_open_ok c && hview_eqb v (hc_view c)
+               && list_eqb pair_eqb (flags_of (hc_tbl c) (hv_stamps v)) (hc_tflag c)
+               && (negb (hwhole c) || (hc_w_ok c && zlist_eqb (hc_written c) (h_enc (hc_c c))))
+     | Err => negb (hc_open_ok c)
+     end.
+Definition h_spec_flags (c : hcase) : list (Z * Z) := o_spec_tflag (map hs_date (h_steps (hc_c c))) (hc_hhmm c).
+Definition hcheckS (c : hcase) : bool :=
+  if hwhole c then
+    hc_py_ok c && hc_open_ok c && hview_eqb (hc_view c) (h_view_of (hc_c c))
+    && list_eqb pair_eqb (hc_tflag c) (h_spec_flags c) && hc_w_ok c
+    && match h_dec (h_nx (hc_c c)) (h_ny (hc_c c)) (h_nz (hc_c c)) (hc_written c) with
+       | Some c' => heightpres_eqb c' (hc_c c) | None => false end
+  else
+    negb (hc_open_ok c)
+    || (let k := Z.to_nat (hv_ntimes (hc_view c)) in
+        hc_py_ok c && (0 <? hv_ntimes (hc_view c)) && (Z.of_nat k <=? Z.of_nat (length (h_steps (hc_c c))))
+        && hview_eqb (hc_view c) (h_view_of (h_truncate_steps k (hc_c c)))
+        && list_eqb pair_eqb (hc_tflag c) (firstn k (h_spec_flags c))).
+Definition hregion (c : hcase) : nat :=
+  if hwhole c && (Z.of_nat (length (h_steps (hc_c c))) <? 2) then 11%nat else 0%nat.
+
 Inductive case_t :=
+| TD (c : tcase)
+| HD (c : hcase)
 | OD (c : ocase)
 | U (c : ucase)
 | R (ref : list word) (recs : list (list word)) (w_ok : bool) (written : list word)
@@ -227,4 +314,6 @@ Definition check (c : case_t) : verdict :=
        0%nat)
   | L c => (lcheckF c, lcheckS c, lregion c)
   | OD c => (ocheckF c, ocheckS c, oregion c)
+  | TD c => (tcheckF c, tcheckS c, tregion c)
+  | HD c => (hcheckF c, hcheckS c, hregion c)
   end.
